@@ -64,9 +64,9 @@ type envelope struct {
 	multi     cfgq.Point
 	exec      cfgq.Point
 	offHset   cfgq.Point
-	offCall   *ast.CallExpr
+	offCall   *c03.SendSite
 	last      types.Object // the local holding the last command of the batch
-	hsets     []*ast.CallExpr
+	hsets     []*c03.SendSite
 	isMulti   func(ast.Node) bool
 	isExec    func(ast.Node) bool
 	isOffHset func(ast.Node) bool
@@ -131,7 +131,7 @@ func r1(c *core.Ctx, s *c03.Sender) *envelope {
 	e.isExec = func(n ast.Node) bool { return n == e.exec.Node() }
 	e.isSend = func(n ast.Node) bool {
 		for _, call := range cfgq.ExecCalls(n) {
-			if _, ok := c03.ConnMethod(info, call, "Send"); ok {
+			if c03.SendOf(info, call) != nil {
 				return true
 			}
 		}
@@ -230,10 +230,13 @@ func r1(c *core.Ctx, s *c03.Sender) *envelope {
 	same := true
 	core.Inspect(s.Lit, func(n ast.Node) bool {
 		if call, ok := n.(*ast.CallExpr); ok {
-			for _, m := range []string{"Send", "Flush", "Do"} {
+			for _, m := range []string{"Flush", "Do"} {
 				if x, ok := c03.ConnMethod(info, call, m); ok && !c03.IsObj(info, s.Conn)(x) {
 					same = false
 				}
+			}
+			if site := c03.SendOf(info, call); site != nil && !c03.IsObj(info, s.Conn)(site.Conn) {
+				same = false
 			}
 		}
 		return true
@@ -255,7 +258,23 @@ func exemption(c *core.Ctx, s *c03.Sender, e *envelope) {
 			return true
 		}
 		if v, ok := info.Types[as.Rhs[0]]; !ok || v.Value == nil {
-			c.Undecidedf(rule, "unbatched-only-for-ping", as.Pos(), "the batching flag is computed by `%s`", c.Src(as))
+			// flag := resume && !(count == 1 && last.Cmd == "ping"), possibly through a named local
+			n++
+			good := false
+			if b := pat.Expr(`_ds.enableResumeFromBreakPoint && !_p`).Match(info, as.Rhs[0], nil); b != nil {
+				inner := b["_p"].(ast.Expr)
+				if o, ok := c03.SoleOrigin(info, s.Lit, inner); ok && o.Expr != nil && o.Op == 0 && !o.Range && o.Res <= 0 {
+					inner = o.Expr
+				}
+				if b2 := pat.Expr(`_n == 1 && _last.Cmd == "ping"`).Match(info, inner, nil); b2 != nil {
+					_, good = lastOfBatch(info, s, b2["_last"].(ast.Expr))
+				}
+			}
+			if good {
+				c.Okf(rule, "unbatched-only-for-ping", as.Pos(), "the envelope is omitted only when resume is disabled or the batch is a single ping")
+			} else {
+				c.Undecidedf(rule, "unbatched-only-for-ping", as.Pos(), "the batching flag is computed by `%s`", c.Src(as))
+			}
 			return true
 		} else if v.Value.String() == "true" {
 			return true
@@ -333,9 +352,8 @@ func errorFatal(c *core.Ctx, s *c03.Sender) {
 	k := 0
 	for _, pt := range g.Points(func(n ast.Node) bool {
 		for _, call := range cfgq.ExecCalls(n) {
-			_, a := c03.ConnMethod(info, call, "Send")
 			_, b := c03.ConnMethod(info, call, "Flush")
-			if a || b {
+			if b || c03.SendOf(info, call) != nil {
 				return true
 			}
 		}
@@ -343,6 +361,16 @@ func errorFatal(c *core.Ctx, s *c03.Sender) {
 	}) {
 		k++
 		key := fmt.Sprintf("error-fatal#%d", k)
+		fatalInside := false
+		for _, call := range cfgq.ExecCalls(pt.Node()) {
+			if site := c03.SendOf(info, call); site != nil && site.Fatal {
+				fatalInside = true
+			}
+		}
+		if fatalInside {
+			c.Okf(rule, key, pt.Node().Pos(), "the forwarding wrapper ends the sender itself when Send fails")
+			continue
+		}
 		as, ok := pt.Node().(*ast.AssignStmt)
 		if !ok || len(as.Lhs) != 1 {
 			c.Failf(rule, key, pt.Node().Pos(), "`%s` discards the error of the connection: after a failed Send/Flush the batch is cleared and lastCommittedOffset advanced although the target never received it (commands lost on the next restart)", c.Src(pt.Node()))
@@ -413,7 +441,7 @@ func hsetArgs(c *core.Ctx, s *c03.Sender, e *envelope) {
 			_, isConst := core.IntConst(info, call.Args[3])
 			unknownVal = !okVal && !isConst
 		default:
-			c.Undecidedf(rule, "hset-shape", call.Pos(), "HSET `%s` inside the envelope is not one of the three checkpoint fields", c.Src(call))
+			c.Undecidedf(rule, "hset-shape", call.Pos(), "HSET `%s` inside the envelope is not one of the three checkpoint fields", c.Src(call.Call))
 			continue
 		}
 		if leafIs(info, scope, call.Args[1], func(x ast.Expr) bool { return core.IsFieldNamed(info, x, c03.Syncer, "checkpointName") }) {
@@ -648,6 +676,119 @@ func r3(c *core.Ctx, s *c03.Sender, p *c03.Parser, e *envelope) {
 // ---------------------------------------------------------------------------
 // R5 resume wiring
 
+type loadVia struct {
+	load, anchor  *ast.AssignStmt
+	runIdx, dbIdx int
+	clean         bool
+}
+
+// loadHelper finds `a, b, ... = ds.h(...)` in Sync where h is a module function
+// that performs the LoadCheckpoint tuple assignment (storing the offset in
+// ds.sourceOffset itself) and returns the loaded run id and database unchanged.
+func loadHelper(c *core.Ctx, syncFn *core.Fn) *loadVia {
+	info := syncFn.Pkg.TypesInfo
+	var out *loadVia
+	core.Inspect(syncFn.Decl.Body, func(n ast.Node) bool {
+		as, ok := n.(*ast.AssignStmt)
+		if !ok || len(as.Rhs) != 1 || len(as.Lhs) < 2 || out != nil {
+			return true
+		}
+		call, ok := ast.Unparen(as.Rhs[0]).(*ast.CallExpr)
+		if !ok {
+			return true
+		}
+		fn := c.FnOf(core.CalleeFunc(info, call))
+		if fn == nil || fn.Decl.Body == nil || !strings.HasPrefix(fn.Pkg.PkgPath, core.Module) {
+			return true
+		}
+		hinfo := fn.Pkg.TypesInfo
+		var load *ast.AssignStmt
+		core.Inspect(fn.Decl.Body, func(m ast.Node) bool {
+			if la, ok := m.(*ast.AssignStmt); ok && len(la.Rhs) == 1 && len(la.Lhs) == 4 {
+				if lc, ok := ast.Unparen(la.Rhs[0]).(*ast.CallExpr); ok && core.IsFunc(core.CalleeFunc(hinfo, lc), "redis-shake/checkpoint", "", "LoadCheckpoint") {
+					load = la
+				}
+			}
+			return true
+		})
+		if load == nil || !c03.IsSourceOffset(hinfo, load.Lhs[1]) {
+			return true
+		}
+		runO, dbO := core.ObjOf(hinfo, load.Lhs[0]), core.ObjOf(hinfo, load.Lhs[2])
+		if runO == nil || dbO == nil {
+			return true
+		}
+		// result positions: by explicit returns, or by named results
+		var results []types.Object
+		if fn.Decl.Type.Results != nil {
+			for _, f := range fn.Decl.Type.Results.List {
+				for _, nm := range f.Names {
+					results = append(results, hinfo.Defs[nm])
+				}
+			}
+		}
+		v := &loadVia{load: load, anchor: as, runIdx: -1, dbIdx: -1, clean: true}
+		g := cfgq.Of(c.Program, fn)
+		lp, okp := g.Find(load)
+		if !okp {
+			return true
+		}
+		for _, pt := range g.Points(func(m ast.Node) bool { _, ok := m.(*ast.ReturnStmt); return ok }) {
+			if g.Path(cfgq.Query{From: lp, After: true, Target: func(m ast.Node) bool { return m == pt.Node() }}) == nil {
+				continue // a return not reached after the load
+			}
+			ret := pt.Node().(*ast.ReturnStmt)
+			at := func(i int) types.Object {
+				if len(ret.Results) == 0 && i < len(results) {
+					return results[i]
+				}
+				if i < len(ret.Results) {
+					if id, ok := ast.Unparen(ret.Results[i]).(*ast.Ident); ok {
+						return core.ObjOf(hinfo, id)
+					}
+				}
+				return nil
+			}
+			ri, di := -1, -1
+			for i := 0; i < len(as.Lhs); i++ {
+				if at(i) == runO {
+					ri = i
+				}
+				if at(i) == dbO {
+					di = i
+				}
+			}
+			if ri < 0 || di < 0 || v.runIdx >= 0 && (v.runIdx != ri || v.dbIdx != di) {
+				v.clean = false
+			}
+			v.runIdx, v.dbIdx = ri, di
+		}
+		// nothing rewrites the loaded values inside the helper after the load
+		w := g.Path(cfgq.Query{From: lp, After: true, Target: func(m ast.Node) bool {
+			switch x := m.(type) {
+			case *ast.AssignStmt:
+				for _, l := range x.Lhs {
+					if c03.IsSourceOffset(hinfo, l) || c03.IsObj(hinfo, runO)(l) || c03.IsObj(hinfo, dbO)(l) {
+						return true
+					}
+				}
+			case *ast.IncDecStmt:
+				return c03.IsSourceOffset(hinfo, x.X)
+			}
+			return false
+		}})
+		if w != nil || v.runIdx < 0 || v.dbIdx < 0 {
+			v.clean = false
+		}
+		if v.runIdx < 0 || v.dbIdx < 0 {
+			return true
+		}
+		out = v
+		return true
+	})
+	return out
+}
+
 func r5(c *core.Ctx, p *c03.Parser) {
 	const rule = "R5.resume"
 	syncFn := c.Func(c03.DbSync, c03.Syncer, "Sync")
@@ -668,13 +809,26 @@ func r5(c *core.Ctx, p *c03.Parser) {
 		}
 		return true
 	})
+	anchor := load // the statement of Sync that delivers the loaded values
+	dbRes := 2     // position of the database among the results bound by anchor
+	var runV, dbV types.Object
+	if load != nil {
+		runV, dbV = core.ObjOf(info, load.Lhs[0]), core.ObjOf(info, load.Lhs[2])
+	} else if h := loadHelper(c, syncFn); h != nil {
+		// the load sits in a helper that Sync calls: `runId, dbid, err = ds.helper()`
+		load, anchor, dbRes = h.load, h.anchor, h.dbIdx
+		runV, dbV = core.ObjOf(info, anchor.Lhs[h.runIdx]), core.ObjOf(info, anchor.Lhs[h.dbIdx])
+		if !h.clean {
+			c.Undecidedf(rule, "Sync/load", anchor.Pos(), "the helper that loads the checkpoint also rewrites the loaded values")
+			return
+		}
+	}
 	if load == nil {
 		c.Undecidedf(rule, "Sync/load", syncFn.Decl.Pos(), "no `runId, offset, dbid, err = checkpoint.LoadCheckpoint(...)` in Sync")
 		return
 	}
-	runV, dbV := core.ObjOf(info, load.Lhs[0]), core.ObjOf(info, load.Lhs[2])
 	offOK, offUnknown := c03.IsSourceOffset(info, load.Lhs[1]), false
-	if lid, ok := ast.Unparen(load.Lhs[1]).(*ast.Ident); ok && lid.Name != "_" {
+	if lid, ok := ast.Unparen(load.Lhs[1]).(*ast.Ident); ok && lid.Name != "_" && anchor == load {
 		for _, wr := range c03.FieldWrites(c, c03.Syncer, "sourceOffset") {
 			if wr.In.Lit == nil && wr.In.Decl == syncFn.Decl && wr.Rhs != nil && c03.IsObj(info, core.ObjOf(info, lid))(wr.Rhs) {
 				offOK = true
@@ -688,7 +842,7 @@ func r5(c *core.Ctx, p *c03.Parser) {
 		c.Check(rule, "Sync/offset-from-checkpoint", load.Pos(), offOK,
 			fmt.Sprintf("the checkpoint's offset (2nd result of LoadCheckpoint) must become ds.sourceOffset, found `%s`: PSYNC would not continue after the stored offset", c.Src(load.Lhs[1])))
 	}
-	lp, _ := g.Find(load)
+	lp, _ := g.Find(anchor)
 	// (b) the PSYNC call receives the loaded run id, nothing overwrites offset or run id in between
 	isPsyncCall := g.HasCall(func(call *ast.CallExpr, callee types.Object) bool { return callee == types.Object(psync.Obj) })
 	var pcall *ast.CallExpr
@@ -716,7 +870,7 @@ func r5(c *core.Ctx, p *c03.Parser) {
 		c.Undecidedf(rule, "Sync/runid-to-psync", pcall.Pos(), "the run id loaded from the checkpoint is not passed to sendPSyncCmd directly")
 	}
 	clobber := func(n ast.Node) bool {
-		if n == ast.Node(load) || isPsyncCall(n) {
+		if n == ast.Node(anchor) || isPsyncCall(n) {
 			return false
 		}
 		switch x := n.(type) {
@@ -724,7 +878,7 @@ func r5(c *core.Ctx, p *c03.Parser) {
 			for i, l := range x.Lhs {
 				if c03.IsSourceOffset(info, l) && len(x.Lhs) == len(x.Rhs) {
 					// storing the loaded offset itself is the wiring, not a clobber
-					if lid, ok := ast.Unparen(load.Lhs[1]).(*ast.Ident); ok && c03.IsObj(info, core.ObjOf(info, lid))(x.Rhs[i]) {
+					if lid, ok := ast.Unparen(load.Lhs[1]).(*ast.Ident); ok && anchor == load && c03.IsObj(info, core.ObjOf(info, lid))(x.Rhs[i]) {
 						continue
 					}
 				}
@@ -767,8 +921,8 @@ func r5(c *core.Ctx, p *c03.Parser) {
 		}
 		c.Check(rule, "Sync/start-db", startAs.Pos(), ok, "ds.startDbId must be set before syncCommand starts the parser that reads it", wit...)
 		// the local only holds the checkpoint's database (or its zero default)
-		for i, o := range c03.Origins(info, syncFn.Decl.Body, load.Lhs[2]) {
-			good := o.Zero || ast.Unparen(o.Expr) == ast.Unparen(load.Rhs[0]) && o.Res == 2
+		for i, o := range c03.Origins(info, syncFn.Decl.Body, anchor.Lhs[dbRes]) {
+			good := o.Zero || ast.Unparen(o.Expr) == ast.Unparen(anchor.Rhs[0]) && o.Res == dbRes
 			if !good {
 				if v, isC := core.IntConst(info, o.Expr); isC && v == 0 {
 					good = true
